@@ -114,6 +114,8 @@ type worldC struct {
 	addrs []common.Address
 	// keyperConfigIndex / eon used in the database
 	kci int64
+	// stmtFault: targeted statement failure (returns true to fail this statement)
+	stmtFault func(nd *cNode, req *pgsim.Request) bool
 	// accessReannounce: access nodes see the keyper set announced twice, first with other members
 	accessReannounce bool
 	eon int64
@@ -441,6 +443,10 @@ func (w *worldC) decide(rq *simkit.Req) any {
 		return pgsim.Proceed
 	}
 	c := w.r.C
+	if w.stmtFault != nil && w.stmtFault(nd, req) {
+		w.r.Fault("db.stmt_error")
+		return pgsim.FailStmt
+	}
 	if nd.faults.stmtErr > 0 && c.Chance(nd.faults.stmtErr, "db.stmt_error") {
 		w.r.Fault("db.stmt_error")
 		return pgsim.FailStmt
